@@ -35,7 +35,9 @@ def plan(tier, seed, kf_ids):
     # the minimum): the special cases of the remainder code (-1, minimum, divisors that do not fit the type's integer part)
     for s in ("I", "U"):
         for w, wide in ((32, "i128"), (64, "i128")):
-            for f in (([w // 2] if w == 32 else [0, w // 2]) if q else [0, w // 2, w]):
+            base_f = [w // 2] if w == 32 else [0, w // 2]
+            for f in [0, w // 2, w]:
+                extra = f not in base_f      # quick tier: decided last, as far as the run budget allows
                 t, i, al, tg = c.ty(s, w, f), c.inner(s, w), c.alias(s, w, f), c.tag(s, w, f)
                 mn = "<%s>::MIN" % i if s == "I" else "(1 << %d)" % (w - 1)
                 fixed_divs = [("ulp", "1"), ("one", "1 << %d" % f if f < w - (1 if s == "I" else 0) else "1 << %d" % (w - 2)), ("min", mn), ("big", "1 << %d" % (w - 2))]
@@ -57,6 +59,8 @@ def plan(tier, seed, kf_ids):
                         code = "c07_%s!(%s, %s, %s, %s%s; %s);" % (body, name, t, i, wide, extra, dexpr)
                         jobs.append(Job(name, code, "for every dividend of %s and the constant divisor %s: %s forms against %s arithmetic" % (al, dexpr, body, wide),
                                         timeout=900, inst=al, bounds="all 2^%d dividends, one divisor" % w))
+                        if extra and q:
+                            jobs[-1].prio = 8
     for k in kf_ids:
         jobs.append(Job("kfw_" + k, "", "witness of known finding %s (concrete operands)" % k, timeout=300, kf=k,
                         inst="witness", bounds="concrete operands"))
